@@ -116,6 +116,7 @@ The oracle needs only the accepted counts and the returned bytes, not the model.
 structure Ab where
   W : List Nat
   pos : Nat
+  rew : Bool := false     -- a (coherent) backwards discard has happened: the known finding
 deriving Repr
 
 inductive Bad where
@@ -139,7 +140,12 @@ def chkStep (cap : Nat) (a : Ab) : Op → Res → Except Bad Ab
   | .readMult _, .err => .ok a
   | .discard k, .unit =>
     let np := a.W.length - a.W.length % k
-    if np < a.pos then .error .rewind else .ok { a with pos := np }
+    if np < a.pos then
+      -- the known finding.  When the bytes from the boundary on are all still in the ring (fewer than
+      -- `cap`), the buffer remains a coherent FIFO that re-delivers them: keep judging from the new
+      -- position, so that a DIFFERENT failure later in the history is still seen
+      if a.W.length - np ≤ cap - 1 then .ok { a with pos := np, rew := true } else .error .rewind
+    else .ok { a with pos := np }
   | _, _ => .ok a
 
 def chkRun (cap : Nat) : Ab → List Op → List Res → Except Bad Ab
@@ -245,6 +251,7 @@ def runLine (ts : List String) : Verdict :=
     | .error .multNotMultiple => .viol "C18:not-multiple ReadMultipleOf returned a non-multiple of the chunk size"
     | .error .overAccept => .viol "C18:over-accept Write accepted more than the free space"
     | .ok a =>
+      if a.rew then .viol "C18:discard-rewind DiscardStride moved the read position backwards (bytes re-delivered)" else
       -- the operations completed so far satisfy the property; if the next one panicked inside the real
       -- ring buffer that is the violation (no sequence of writes and reads may do that)
       if let some what := panicked then
